@@ -65,6 +65,13 @@ def main():
                       None, found_input=False)
         return ctx.finish(thm)
 
+    if not ctx.violations:
+        rep = ctx.ask_again()
+        if rep:
+            name, req, first, got = rep
+            ctx.violation('property', '%s fails on the implementation: %s%r answered %s the first time and %s when asked again at the end of the '
+                          'run: the result is not a function of the input' % (pid, req[0], tuple(req[1]), first[:300], got[:300]), [req[0], req[1]])
+
     n, err = ctx.model.coq_crosscheck(ctx.all_requests)
     ctx.notes.append('extraction cross-check: %d requests re-evaluated by vm_compute inside Coq' % n)
     if err:
